@@ -1,9 +1,8 @@
 (* C18 -- property theorems only.  Statements are about Model/Dtype.v: the NEP-50 promotion table (re-measured from NumPy
    on every run), the dtype language, and the per-entry-point skeletons.
-   Standing against the current code: C18_mask_multiplier_int_mask_refuted / _f64_mask_refuted (cp_to_tensor / khatri_rao /
-   cp_lstsq_grad use the mask as a plain multiplier; exact characterisation C18_mask_multiplier_is_promotion, restricted statement
-   C18_mask_multiplier_partial, after the candidate repair C18_mask_multiplier_after_cast_any_mask).  The *_before_* refutations
-   are about code that has since been repaired.  Programs extracted from the Python source: C18_prog2_precision_preserved
+   No refutation stands against the current code: every *_before_<commit>_refuted statement is about code that has since been
+   repaired (45ef7df masks of parafac / tucker / svd_interface, c906acd active_set fallback, ba7a532 the plain mask multipliers
+   cp_to_tensor / khatri_rao / cp_lstsq_grad, whose statement for the code as it is now is C18_mask_multiplier_after_cast_any_mask).  Programs extracted from the Python source: C18_prog2_precision_preserved
    (precision class) and C18_all_exact2_sound (exactly the data's dtype: complex stays complex). *)
 From Coq Require Import List Bool Arith String.
 From TLV Require Import Model.Dtype Proofs.DtypeProofs.
@@ -106,9 +105,8 @@ Example C18_exact2_nonvacuous :
   nth_error (p_outs p1) 0 = Some ("*", Var 1) /\ In C64 ctxs /\ In I64 mask_dts.
 Proof. repeat split; try (vm_compute; reflexivity); simpl; tauto. Qed.
 
-(* the option space: a configuration is valid iff its family is neither the documented float64 one (leverage scores) nor the
-   plain mask multipliers as the code is now (cp_to_tensor / khatri_rao / cp_lstsq_grad with mask=: known finding, characterised
-   exactly by C18_mask_multiplier_is_promotion below); the
+(* the option space: a configuration is valid iff its family is neither the documented float64 one (leverage scores) nor FMaskMul,
+   the plain mask multipliers as they were BEFORE the repair ba7a532 (kept as a model variant; the code now is FMaskMulCast, listed); the
    skeleton of a family does not look at the options the family does not have (proved family by family with symbolic option
    values), so the complete enumeration inside Coq runs over the normalised configurations only *)
 Theorem C18_valid_cfg_iff : forall c, valid_cfg c <-> (c_fam c <> FLeverage /\ c_fam c <> FMaskMul).
@@ -153,50 +151,51 @@ Example C18_complex_factors_nonvacuous :
   out_of (mkenv C64 B) (with_mask (cfg0 FParafac)) 5 "factors" = Some C64 /\ out_of (mkenv C128 C128) (cfg0 FSvd) 0 "out1" = Some F64.
 Proof. unfold valid_cfg. repeat split; try (vm_compute; reflexivity); vm_compute; tauto. Qed.
 
-(* ---- the plain mask multipliers cp_to_tensor(mask=) / khatri_rao(mask=) (alt = false) and cp_lstsq_grad(mask=) (alt = true), code as
-   it is: every output is EXACTLY the NumPy promotion of the data's dtype with the mask's dtype - for all four contexts, all six
-   strong mask dtypes *)
-Theorem C18_mask_multiplier_is_promotion : forall alt t m n s e, In t ctxs -> In m mask_dts ->
-  In (s, e) (p_outs (mask_mul_prog false true alt)) ->
-  eval (mkenv t m) (run (mkenv t m) (mask_mul_prog false true alt) n) e = promote t m.
-Proof. exact mask_mul_is_promotion. Qed.
-Print Assumptions C18_mask_multiplier_is_promotion.
-(* REFUTED for the current code: an int64 mask widens float32 results to float64, a float64 mask widens complex64 to complex128 *)
-Theorem C18_mask_multiplier_int_mask_refuted : exists alt n s e, In (s, e) (p_outs (mask_mul_prog false true alt)) /\
-  eval (mkenv F32 I64) (run (mkenv F32 I64) (mask_mul_prog false true alt) n) e = F64.
-Proof. exact mask_mul_int_mask_refuted. Qed.
-Print Assumptions C18_mask_multiplier_int_mask_refuted.
-Theorem C18_mask_multiplier_f64_mask_refuted : exists alt n s e, In (s, e) (p_outs (mask_mul_prog false true alt)) /\
-  eval (mkenv C64 F64) (run (mkenv C64 F64) (mask_mul_prog false true alt) n) e = C128.
-Proof. exact mask_mul_f64_mask_refuted. Qed.
-Print Assumptions C18_mask_multiplier_f64_mask_refuted.
-(* the restricted statement that holds: the context is kept exactly for every mask dtype the context absorbs - bool (the documented
-   mask type) and the data's own precision class always; in double precision every real mask; in complex128 every mask *)
-Theorem C18_mask_multiplier_partial : forall alt t m n s e, In t ctxs -> In m mask_dts -> mask_absorbed t m = true ->
-  In (s, e) (p_outs (mask_mul_prog false true alt)) ->
-  eval (mkenv t m) (run (mkenv t m) (mask_mul_prog false true alt) n) e = t.
-Proof. exact mask_mul_partial. Qed.
-Print Assumptions C18_mask_multiplier_partial.
-Theorem C18_mask_absorbed_spec : forall t m, In t ctxs -> In m mask_dts ->
-  mask_absorbed t m = (dt_eqb m B || dt_eqb m t || dt_eqb m (real_of t)
-                       || (dt_eqb t F64 && negb (dt_eqb m C64) && negb (dt_eqb m C128)) || dt_eqb t C128).
-Proof. exact mask_absorbed_spec. Qed.
-Print Assumptions C18_mask_absorbed_spec.
-Theorem C18_mask_multiplier_unmasked : forall cast alt t m n s e, In t ctxs -> In (s, e) (p_outs (mask_mul_prog cast false alt)) ->
-  eval (mkenv t m) (run (mkenv t m) (mask_mul_prog cast false alt) n) e = t.
-Proof. exact mask_mul_unmasked. Qed.
-Print Assumptions C18_mask_multiplier_unmasked.
-(* with the candidate repair (mask cast into the context of the factors; build/fix_candidates/C18_mask_multiplier.diff) the three entry
-   points are an instance of C18_outputs_exact_context: exactly t for EVERY mask dtype *)
+(* ---- the plain mask multipliers cp_to_tensor(mask=) / khatri_rao(mask=) (alt = false) and cp_lstsq_grad(mask=) (alt = true).
+   HEADLINE (the code since the repair ba7a532, which casts the mask into the context of the factors; family FMaskMulCast, an instance
+   of C18_outputs_exact_context): every output - reconstruction / Khatri-Rao product / gradient factors, the weights CPTensor adds, the
+   loss - has EXACTLY the data's dtype for EVERY mask dtype, in all four contexts *)
 Theorem C18_mask_multiplier_after_cast_any_mask : forall alt t m n s e, In t ctxs ->
   In (s, e) (p_outs (skeleton (maskmul_cast_cfg alt))) ->
   eval (mkenv t m) (run (mkenv t m) (skeleton (maskmul_cast_cfg alt)) n) e = t.
 Proof. exact mask_mul_cast_any_mask. Qed.
 Print Assumptions C18_mask_multiplier_after_cast_any_mask.
+Theorem C18_mask_multiplier_unmasked : forall cast alt t m n s e, In t ctxs -> In (s, e) (p_outs (mask_mul_prog cast false alt)) ->
+  eval (mkenv t m) (run (mkenv t m) (mask_mul_prog cast false alt) n) e = t.
+Proof. exact mask_mul_unmasked. Qed.
+Print Assumptions C18_mask_multiplier_unmasked.
+(* ABOUT THE CODE BEFORE ba7a532 (mask used as passed in; mask_mul_prog false, family FMaskMul - kept so that a regression is compared
+   with the right skeleton and reported with a failing input): every output was EXACTLY the NumPy promotion of the data's dtype with the
+   mask's dtype, for the four contexts and the six strong mask dtypes ... *)
+Theorem C18_mask_multiplier_before_ba7a532_is_promotion : forall alt t m n s e, In t ctxs -> In m mask_dts ->
+  In (s, e) (p_outs (mask_mul_prog false true alt)) ->
+  eval (mkenv t m) (run (mkenv t m) (mask_mul_prog false true alt) n) e = promote t m.
+Proof. exact mask_mul_is_promotion. Qed.
+Print Assumptions C18_mask_multiplier_before_ba7a532_is_promotion.
+(* ... so an int64 mask widened float32 results to float64 and a float64 mask complex64 to complex128 (found by this check, repaired) ... *)
+Example C18_mask_multiplier_int_mask_before_ba7a532_refuted : exists alt n s e, In (s, e) (p_outs (mask_mul_prog false true alt)) /\
+  eval (mkenv F32 I64) (run (mkenv F32 I64) (mask_mul_prog false true alt) n) e = F64.
+Proof. exact mask_mul_int_mask_refuted. Qed.
+Example C18_mask_multiplier_f64_mask_before_ba7a532_refuted : exists alt n s e, In (s, e) (p_outs (mask_mul_prog false true alt)) /\
+  eval (mkenv C64 F64) (run (mkenv C64 F64) (mask_mul_prog false true alt) n) e = C128.
+Proof. exact mask_mul_f64_mask_refuted. Qed.
+(* ... while the context was kept exactly for every mask dtype the context absorbs - bool (the documented mask type) and the data's own
+   precision class always; in double precision every real mask; in complex128 every mask *)
+Theorem C18_mask_multiplier_before_ba7a532_partial : forall alt t m n s e, In t ctxs -> In m mask_dts -> mask_absorbed t m = true ->
+  In (s, e) (p_outs (mask_mul_prog false true alt)) ->
+  eval (mkenv t m) (run (mkenv t m) (mask_mul_prog false true alt) n) e = t.
+Proof. exact mask_mul_partial. Qed.
+Print Assumptions C18_mask_multiplier_before_ba7a532_partial.
+Theorem C18_mask_absorbed_spec : forall t m, In t ctxs -> In m mask_dts ->
+  mask_absorbed t m = (dt_eqb m B || dt_eqb m t || dt_eqb m (real_of t)
+                       || (dt_eqb t F64 && negb (dt_eqb m C64) && negb (dt_eqb m C128)) || dt_eqb t C128).
+Proof. exact mask_absorbed_spec. Qed.
+Print Assumptions C18_mask_absorbed_spec.
 Example C18_mask_multiplier_nonvacuous :
   In F32 ctxs /\ In B mask_dts /\ mask_absorbed F32 B = true /\ mask_absorbed F32 I64 = false /\ mask_absorbed F32 F64 = false /\
   mask_absorbed C64 F32 = true /\ mask_absorbed F64 I64 = true /\
   In ("out0", Op (Op (Op F_ W_) F_) M_) (p_outs (mask_mul_prog false true false)) /\
+  In ("out0", Op (Op (Op F_ W_) F_) M_) (p_outs (skeleton (maskmul_cast_cfg false))) /\
   out_dtypes (mkenv F32 B) (mask_mul_prog false true true) 4 = [("factors", F32); ("weights", F32); ("out1", F32)] /\
   out_dtypes (mkenv F32 I64) (mask_mul_prog true true true) 4 = [("factors", F32); ("weights", F32); ("out1", F32)] /\
   out_dtypes (mkenv F32 I64) (mask_mul_prog false true true) 4 = [("factors", F64); ("weights", F64); ("out1", F64)].
